@@ -441,4 +441,377 @@ theorem policyCell_spec {fsig : String → Option Nat} {sl : List Cell}
             simp at hne
 
 
+
+theorem dedup_spec {α} [BEq α] [LawfulBEq α] (l : List α) :
+    (dedup l).Nodup ∧ ∀ x, x ∈ dedup l ↔ x ∈ l := by
+  have := dedupFold_spec (fun x : α => x) l [] (by simp)
+  refine ⟨this.1, fun x => ?_⟩
+  have h := this.2 x
+  simp only [List.not_mem_nil, false_or] at h
+  unfold dedup
+  rw [h]
+  constructor
+  · rintro ⟨a, ha, rfl⟩; exact ha
+  · intro hx; exact ⟨x, hx, rfl⟩
+
+theorem mem_periods {sl : List Cell} {c : Cell} (hc : c ∈ sl) : (c.ps, c.pe) ∈ periods sl := by
+  unfold periods
+  rw [(List.mergeSort_perm _ _).mem_iff, (dedup_spec _).2]
+  exact List.mem_map.mpr ⟨c, hc, rfl⟩
+
+theorem evaluationDates_nodup (sl : List Cell) : (evaluationDates sl).Nodup := by
+  unfold evaluationDates
+  exact (List.mergeSort_perm _ _).nodup_iff.mpr (dedup_spec _).1
+
+theorem mem_evaluationDates {sl : List Cell} {d : Date} : d ∈ evaluationDates sl ↔ ∃ c ∈ sl, c.ev = d := by
+  unfold evaluationDates
+  rw [(List.mergeSort_perm _ _).mem_iff, (dedup_spec _).2]
+  simp
+
+theorem find?_map_key {α β} [BEq α] [LawfulBEq α] (l : List α) (R : α → β) (a0 : α) :
+    (l.map fun a => (a, R a)).find? (·.1 == a0) = if a0 ∈ l then some (a0, R a0) else none := by
+  induction l with
+  | nil => simp
+  | cons a rest ih =>
+    rw [List.map_cons, List.find?_cons]
+    by_cases h : a = a0
+    · subst h; simp
+    · have h' : (a == a0) = false := by simpa using h
+      simp only [h', ih, List.mem_cons]
+      have : ¬ a0 = a := fun e => h e.symm
+      simp [this]
+
+theorem find?_filterMap_key {α β} [BEq α] [LawfulBEq α] (l : List α) (H : α → Option β) (a0 : α) :
+    (l.filterMap fun a => (H a).map fun b => (a, b)).find? (·.1 == a0) =
+      if a0 ∈ l then (H a0).map fun b => (a0, b) else none := by
+  induction l with
+  | nil => simp
+  | cons a rest ih =>
+    rw [List.filterMap_cons]
+    by_cases h : a = a0
+    · subst h
+      cases hH : H a with
+      | none =>
+        simp only [Option.map_none, ih, List.mem_cons, true_or, if_true]
+        split
+        · simp [hH]
+        · rfl
+      | some b => simp
+    · have h' : (a == a0) = false := by simpa using h
+      have hne : ¬ a0 = a := fun e => h e.symm
+      cases hH : H a with
+      | none => simp [ih, hne]
+      | some b => simp [h', ih, hne]
+
+theorem sum_filterMap_getD {α} (l : List α) (H : α → Option Rat) :
+    ((l.filterMap fun a => (H a).map fun b => (a, b)).map (·.2)).sum = (l.map fun a => (H a).getD 0).sum := by
+  induction l with
+  | nil => simp
+  | cons a rest ih =>
+    rw [List.filterMap_cons]
+    cases hH : H a with
+    | none => simp [ih, hH]
+    | some b => simp [ih, hH]
+
+/-- the normalised row of accident period `p`, as a `filterMap` over the policy years -/
+def rowH (ps : List (Date × Date)) (len : Nat) (cont : Bool) (p : Date × Date) (tot : Rat)
+    (py : Date × Date) : Option Rat :=
+  ((monthlyToQuarterly (policyShareByMonth py.1 py.2 len cont) ps).find? (·.1 == p)).map fun e => e.2 / tot
+
+theorem aqShares_eq (ps pys : List (Date × Date)) (len : Nat) (cont : Bool) :
+    ∃ tot : (Date × Date) → Rat, aqShares ps pys len cont =
+      ps.map fun aq => (aq, pys.filterMap fun py => (rowH ps len cont aq (tot aq) py).map fun b => (py, b)) := by
+  refine ⟨fun aq => ((((pys.map fun py =>
+    (py, monthlyToQuarterly (policyShareByMonth py.1 py.2 len cont) ps)).filterMap fun (x : (Date × Date) × List ((Date × Date) × Rat)) =>
+      (x.2.find? (·.1 == aq)).map fun e => (x.1, e.2)).map (·.2)).sum), ?_⟩
+  unfold aqShares
+  apply List.map_congr_left
+  intro aq _
+  simp only [Prod.mk.injEq, true_and]
+  rw [List.filterMap_map, List.map_filterMap]
+  apply List.filterMap_congr
+  intro py _
+  simp only [Function.comp, rowH, Option.map_map]
+  rfl
+
+theorem shareOf_sum {sl : List Cell} {pys : List (Date × Date)} {len : Nat} {cont : Bool} {c : Cell}
+    (hc : c ∈ sl)
+    (hcov : ∀ row ∈ aqShares (periods sl) pys len cont, (row.2.map (·.2)).sum = 1) :
+    (pys.map fun py => (shareOf (aqShares (periods sl) pys len cont) py c).getD 0).sum = 1 := by
+  obtain ⟨tot, heq⟩ := aqShares_eq (periods sl) pys len cont
+  have hp := mem_periods hc
+  have hrow := hcov ((c.ps, c.pe), pys.filterMap fun py =>
+      (rowH (periods sl) len cont (c.ps, c.pe) (tot (c.ps, c.pe)) py).map fun b => (py, b))
+    (by rw [heq]; exact List.mem_map.mpr ⟨(c.ps, c.pe), hp, rfl⟩)
+  rw [sum_filterMap_getD] at hrow
+  rw [← hrow]
+  apply congrArg
+  apply List.map_congr_left
+  intro py hpy
+  unfold shareOf
+  rw [heq]
+  simp only [find?_map_key, hp, if_true, Option.map_some, Option.getD_some, find?_filterMap_key, hpy]
+  cases rowH (periods sl) len cont (c.ps, c.pe) (tot (c.ps, c.pe)) py <;> simp
+
+
+
+theorem total_nil (g : String) (i : Nat) : total [] g i = 0 := by simp [total]
+
+theorem total_append (a b : List Cell) (g : String) (i : Nat) :
+    total (a ++ b) g i = total a g i + total b g i := by
+  simp [total]
+
+theorem sum_forall2 {α β} {R : α → β → Prop} {l : List α} {r : List β} (h : Forall2 R l r)
+    (φ : β → Rat) (ψ : α → Rat) (hr : ∀ a b, a ∈ l → R a b → φ b = ψ a) :
+    (r.map φ).sum = (l.map ψ).sum := by
+  induction h with
+  | nil => rfl
+  | cons hab _ ih =>
+    simp only [List.map_cons, List.sum_cons]
+    rw [hr _ _ (by simp) hab, ih fun a b ha => hr a b (by simp [ha])]
+
+theorem total_cons (c : Cell) (l : List Cell) (g : String) (i : Nat) :
+    total (c :: l) g i = cellField c g i + total l g i := by simp [total]
+
+theorem total_filterMap_filter (ocs : List (Option Cell)) (P : Cell → Bool) (g : String) (i : Nat) :
+    total ((ocs.filterMap id).filter P) g i = (ocs.map fun oc => total (oc.toList.filter P) g i).sum := by
+  induction ocs with
+  | nil => simp [total]
+  | cons oc rest ih =>
+    cases oc with
+    | none =>
+      rw [List.filterMap_cons_none (by rfl), List.map_cons, List.sum_cons, ih]
+      simp [total_nil]
+    | some c =>
+      rw [List.filterMap_cons_some (by rfl), List.map_cons, List.sum_cons, ← ih, List.filter_cons]
+      by_cases hP : P c = true
+      · simp [hP, total_cons, total_nil]
+      · simp [hP, total_nil]
+
+theorem total_flatten_filterMap_filter (cells : List (List (Option Cell))) (P : Cell → Bool)
+    (g : String) (i : Nat) :
+    total ((cells.flatten.filterMap id).filter P) g i =
+      (cells.map fun row => (row.map fun oc => total (oc.toList.filter P) g i).sum).sum := by
+  induction cells with
+  | nil => simp [total]
+  | cons row rest ih =>
+    simp only [List.flatten_cons, List.filterMap_append, List.filter_append, total_append,
+      List.map_cons, List.sum_cons, ih, total_filterMap_filter]
+
+theorem sum_indicator_nodup (l : List Date) (hn : l.Nodup) (d : Date) (F : Date → Rat) :
+    (l.map fun a => if a == d then F a else 0).sum = if d ∈ l then F d else 0 := by
+  induction l with
+  | nil => simp
+  | cons a rest ih =>
+    rw [List.nodup_cons] at hn
+    simp only [List.map_cons, List.sum_cons, ih hn.2, List.mem_cons]
+    by_cases h : a = d
+    · subst h; simp [hn.1]
+    · have h' : (a == d) = false := by simpa using h
+      have : ¬ d = a := fun e => h e.symm
+      simp [h', this]
+
+theorem sum_map_add {α} (l : List α) (F G : α → Rat) :
+    (l.map fun a => F a + G a).sum = (l.map F).sum + (l.map G).sum := by
+  induction l with
+  | nil => simp
+  | cons a rest ih => simp only [List.map_cons, List.sum_cons, ih]; ring
+
+theorem sum_swap {α β} (l : List α) (r : List β) (F : α → β → Rat) :
+    (l.map fun a => (r.map fun b => F a b).sum).sum = (r.map fun b => (l.map fun a => F a b).sum).sum := by
+  induction l with
+  | nil => simp
+  | cons a rest ih =>
+    simp only [List.map_cons, List.sum_cons, ih, sum_map_add]
+
+/-- what `aqToPolicyYearCells` returns, at one evaluation date -/
+theorem policyYearCells_spec {fsig : String → Option Nat} {sl tri : List Cell} {len : Nat}
+    {origin : Date} {cont : Bool}
+    (hu : ∀ c ∈ sl, ∀ kv ∈ c.values, sgIn kv.2 = fsig kv.1)
+    (hcov : ∀ pys, policyYearsCovered sl origin = .ok pys →
+      ∀ row ∈ aqShares (periods sl) pys len cont, (row.2.map (·.2)).sum = 1)
+    (h : aqToPolicyYearCells sl len origin cont = .ok tri) :
+    (∀ o ∈ tri, ∃ c ∈ sl, o.md = c.md) ∧
+    ∀ d g i, total (tri.filter (·.ev == d)) g i = total (sl.filter (·.ev == d)) g i := by
+  unfold aqToPolicyYearCells at h
+  cases h1 : Triangle.rightEdge sl with
+  | error e => simp [h1, bind, Except.bind] at h
+  | ok re =>
+    simp only [h1, bind, Except.bind] at h
+    split at h
+    · cases h
+    · cases h2 : policyYearsCovered sl origin with
+      | error e => simp [h2] at h
+      | ok pys =>
+        simp only [h2] at h
+        split at h
+        · cases h
+        · cases h3 : pys.mapM (fun py => (evaluationDates sl).mapM fun ev =>
+              policyCell sl (aqShares (periods sl) pys len cont) py ev) with
+          | error e => simp [h3] at h
+          | ok cells =>
+            simp only [h3] at h
+            have hperm := ofCells_perm' h
+            have hF := mapM_ok_forall2 h3
+            have hF' : Forall2 (fun py row => Forall2 (fun ev oc =>
+                policyCell sl (aqShares (periods sl) pys len cont) py ev = .ok oc) (evaluationDates sl) row)
+                pys cells := hF.imp fun py row _ hr => mapM_ok_forall2 hr
+            constructor
+            · intro o ho
+              have ho' := hperm.mem_iff.mp ho
+              obtain ⟨oc, hoc, hid⟩ := List.mem_filterMap.mp ho'
+              simp only [id] at hid; subst hid
+              obtain ⟨row, hrow, hocr⟩ := List.mem_flatten.mp hoc
+              obtain ⟨py, _, hpr⟩ := hF'.mem_right hrow
+              obtain ⟨ev, _, hpc⟩ := hpr.mem_right hocr
+              exact ((policyCell_spec hu hpc).1 o rfl).2
+            · intro d g i
+              rw [total_perm (hperm.filter _), total_flatten_filterMap_filter]
+              have hcov' := hcov pys h2
+              -- per policy year
+              have hrowsum : ∀ py row, py ∈ pys → Forall2 (fun ev oc =>
+                  policyCell sl (aqShares (periods sl) pys len cont) py ev = .ok oc) (evaluationDates sl) row →
+                  (row.map fun oc => total (oc.toList.filter (·.ev == d)) g i).sum =
+                  ((sl.filter (·.ev == d)).map fun c => cellField c g i *
+                    (shareOf (aqShares (periods sl) pys len cont) py c).getD 0).sum := by
+                intro py row _ hr
+                rw [sum_forall2 hr _ (fun ev => if ev == d then
+                  ((sl.filter (·.ev == ev)).map fun c => cellField c g i *
+                    (shareOf (aqShares (periods sl) pys len cont) py c).getD 0).sum else 0)]
+                · rw [sum_indicator_nodup _ (evaluationDates_nodup sl)]
+                  split
+                  · rfl
+                  · rename_i hd
+                    have : sl.filter (·.ev == d) = [] := by
+                      rw [List.filter_eq_nil_iff]
+                      intro c hc hcd
+                      exact hd (mem_evaluationDates.mpr ⟨c, hc, by simpa using hcd⟩)
+                    rw [this]; rfl
+                · intro ev oc _ hpc
+                  obtain ⟨hev, htot⟩ := policyCell_spec hu hpc
+                  by_cases hd : ev = d
+                  · subst hd
+                    have : oc.toList.filter (·.ev == ev) = oc.toList := by
+                      rw [List.filter_eq_self]
+                      intro o ho; simp at ho; simp [(hev o ho).1]
+                    simp only [this, beq_self_eq_true, if_true]
+                    exact htot g i
+                  · have h' : (ev == d) = false := by simpa using hd
+                    have : oc.toList.filter (·.ev == d) = [] := by
+                      rw [List.filter_eq_nil_iff]
+                      intro o ho hod; simp at ho
+                      exact hd (by rw [← (hev o ho).1]; simpa using hod)
+                    simp [this, h', total_nil]
+              rw [sum_forall2 hF' _ _ hrowsum, sum_swap]
+              unfold total
+              apply congrArg
+              apply List.map_congr_left
+              intro c hc
+              have hc' := (List.mem_filter.mp hc).1
+              have : (pys.map fun a => cellField c g i * (shareOf (aqShares (periods sl) pys len cont) a c).getD 0)
+                  = (pys.map fun a => (shareOf (aqShares (periods sl) pys len cont) a c).getD 0).map (cellField c g i * ·) := by
+                rw [List.map_map]; rfl
+              rw [this, sum_map_mul_left, shareOf_sum hc' hcov', mul_one]
+
+
+
+theorem forall2_eq_map {α β} {f : α → β} {l : List α} {r : List β}
+    (h : Forall2 (fun a b => b = f a) l r) : r = l.map f := by
+  induction h with
+  | nil => rfl
+  | cons hab _ ih => rw [hab, ih]; rfl
+
+theorem deriveMetadata_perm {t r : List Cell} {e : MetaEdit}
+    (h : Triangle.deriveMetadata t e = .ok r) :
+    r.Perm (t.map fun c => { c with md := c.md.edit e }) := by
+  unfold Triangle.deriveMetadata at h
+  cases hm : t.mapM (fun c => ({ c with md := c.md.edit e } : Cell).mk?) with
+  | error e' => simp [hm, bind, Except.bind] at h
+  | ok cells =>
+    simp only [hm, bind, Except.bind] at h
+    have : cells = t.map fun c => { c with md := c.md.edit e } :=
+      forall2_eq_map ((mapM_ok_forall2 hm).imp fun c o _ hco => (mk?_ok hco).1)
+    rw [← this]; exact ofCells_perm' h
+
+theorem total_map_values (l : List Cell) (f : Cell → Cell) (hf : ∀ c, (f c).values = c.values)
+    (g : String) (i : Nat) : total (l.map f) g i = total l g i := by
+  unfold total
+  rw [List.map_map]
+  apply congrArg
+  apply List.map_congr_left
+  intro c _
+  simp only [Function.comp, cellField, hf]
+
+theorem total_flatten_filter (rs : List (List Cell)) (P : Cell → Bool) (g : String) (i : Nat) :
+    total (rs.flatten.filter P) g i = (rs.map fun r => total (r.filter P) g i).sum := by
+  induction rs with
+  | nil => simp [total]
+  | cons r rest ih =>
+    rw [List.flatten_cons, List.filter_append, total_append, ih]; simp
+
+theorem policyYearSlice_spec {fsig : String → Option Nat} {sl r : List Cell} {m : Metadata}
+    {len : Nat} {origin : Date} {cont : Bool} (hmd : ∀ c ∈ sl, c.md = m)
+    (hu : ∀ c ∈ sl, ∀ kv ∈ c.values, sgIn kv.2 = fsig kv.1)
+    (hcov : ∀ pys, policyYearsCovered sl origin = .ok pys →
+      ∀ row ∈ aqShares (periods sl) pys len cont, (row.2.map (·.2)).sum = 1)
+    (h : aqToPolicyYearSlice sl len origin cont = .ok r) (m' : Metadata) (d : Date) (g : String) (i : Nat) :
+    total (r.filter fun o => o.md == m' && o.ev == d) g i =
+      total (sl.filter fun c => toPolicy c.md == m' && c.ev == d) g i := by
+  unfold aqToPolicyYearSlice at h
+  cases hc : aqToPolicyYearCells sl len origin cont with
+  | error e => simp [hc, bind, Except.bind] at h
+  | ok tri =>
+    simp only [hc, bind, Except.bind] at h
+    obtain ⟨hmds, htot⟩ := policyYearCells_spec hu hcov hc
+    have hperm := deriveMetadata_perm h
+    rw [total_perm (hperm.filter _), List.filter_map,
+      total_map_values _ (fun c : Cell => { c with md := c.md.edit (.riskBasis (some "Policy")) }) (fun _ => rfl)]
+    have htri : ∀ c ∈ tri, c.md = m := fun c hc' => by
+      obtain ⟨c0, hc0, e⟩ := hmds c hc'; rw [e, hmd c0 hc0]
+    have e1 : tri.filter ((fun o : Cell => o.md == m' && o.ev == d) ∘ fun c => { c with md := c.md.edit (.riskBasis (some "Policy")) })
+        = tri.filter fun c => (toPolicy m == m') && c.ev == d := by
+      apply List.filter_congr
+      intro c hc'
+      simp only [Function.comp, Metadata.edit, htri c hc', toPolicy]
+    have e2 : sl.filter (fun c => toPolicy c.md == m' && c.ev == d)
+        = sl.filter fun c => (toPolicy m == m') && c.ev == d := by
+      apply List.filter_congr
+      intro c hc'
+      rw [hmd c hc']
+    rw [e1, e2]
+    cases hb : toPolicy m == m'
+    · simp [total_nil]
+    · simpa using htot d g i
+
+theorem foldlM_add_spec {F : List Cell → Except Err (List Cell)} :
+    ∀ (slices : List (Metadata × List Cell)) (init out : List Cell),
+      slices.foldlM (fun results sl => do
+        let r ← F sl.2
+        Triangle.add results r) init = .ok out →
+      ∃ rs, Forall2 (fun sl r => F sl.2 = .ok r) slices rs ∧ out.Perm (init ++ rs.flatten) := by
+  intro slices
+  induction slices with
+  | nil =>
+    intro init out h
+    simp [List.foldlM_nil, pure, Except.pure] at h; subst h
+    exact ⟨[], .nil, by simp⟩
+  | cons sl rest ih =>
+    intro init out h
+    rw [List.foldlM_cons] at h
+    cases hr : F sl.2 with
+    | error e => simp [hr, bind, Except.bind] at h
+    | ok r =>
+      simp only [hr, bind, Except.bind] at h
+      cases ha : Triangle.add init r with
+      | error e => simp [ha] at h
+      | ok res =>
+        simp only [ha] at h
+        obtain ⟨rs, hF, hp⟩ := ih res out h
+        refine ⟨r :: rs, .cons hr hF, ?_⟩
+        have hres : res.Perm (init ++ r) := ofCells_perm' ha
+        refine hp.trans ?_
+        simp only [List.flatten_cons, ← List.append_assoc]
+        exact hres.append_right _
+
+
 end Bermuda.Units
